@@ -330,10 +330,21 @@ func init() {
 			return f(x)
 		}
 	}
-	f1("math.Sqrt", math.Sqrt)
-	f1("math.Floor", math.Floor)
-	f1("math.Ceil", math.Ceil)
-	f1("math.Trunc", math.Trunc)
+	// IEEE operations with an SMT-LIB counterpart are encoded; NaN payloads
+	// and the sign of zero follow IEEE 754 (as Go's math package does)
+	fpOp := func(name, op string, f func(float64) float64) {
+		ext[name] = func(fr *frame, args []value) value {
+			if t, ok := args[0].(*Term); ok {
+				return mk(op, fp64Sort, t)
+			}
+			return f(args[0].(float64))
+		}
+	}
+	fpOp("math.Sqrt", "fp.sqrt", math.Sqrt)
+	fpOp("math.Floor", "fp.rti_rtn", math.Floor)
+	fpOp("math.Ceil", "fp.rti_rtp", math.Ceil)
+	fpOp("math.Trunc", "fp.rti_rtz", math.Trunc)
+	fpOp("math.Round", "fp.rti_rna", math.Round)
 	f1("math.Log", math.Log)
 	f1("math.Log2", math.Log2)
 	f1("math.Log10", math.Log10)
@@ -341,7 +352,6 @@ func init() {
 	f1("math.Sin", math.Sin)
 	f1("math.Cos", math.Cos)
 	f1("math.Tan", math.Tan)
-	f1("math.Round", math.Round)
 	ext["math.Pow"] = func(fr *frame, args []value) value {
 		if isSym(args[0]) || isSym(args[1]) {
 			return mk("uf_pow", fp64Sort, toTerm(args[0]), toTerm(args[1]))
